@@ -187,6 +187,8 @@ pub fn solve_milp_lp_problem_with(
             // a limit (time, MIP gap) can stop the search early: only a proven
             // optimum may be labelled optimal, an incumbent is merely feasible and
             // an interrupted search without incumbent has no solution at all
+            #[cfg(rooc_verif)]
+            verif_hooks::record_raw_status(s.status());
             let status = match s.status() {
                 microlp::Status::Optimal => SolutionStatus::Optimal,
                 microlp::Status::Feasible => SolutionStatus::Feasible,
@@ -227,5 +229,27 @@ pub fn solve_milp_lp_problem_with(
             Error::InvalidOperation(s) => SolverError::Other(s),
             Error::Infeasible => SolverError::Infeasible,
         }),
+    }
+}
+
+/// Records what microlp itself reported for the last solve on this thread, so the verification harness
+/// can compare it with the label rooc attaches (compiled only with `--cfg rooc_verif`).
+#[cfg(rooc_verif)]
+pub mod verif_hooks {
+    use std::cell::Cell;
+    thread_local! {
+        static LAST_RAW_STATUS: Cell<Option<&'static str>> = const { Cell::new(None) };
+    }
+    pub(super) fn record_raw_status(status: microlp::Status) {
+        let name = match status {
+            microlp::Status::Optimal => "Optimal",
+            microlp::Status::Feasible => "Feasible",
+            microlp::Status::Interrupted => "Interrupted",
+        };
+        LAST_RAW_STATUS.with(|cell| cell.set(Some(name)));
+    }
+    /// Takes (and clears) the raw status recorded by the last `solve_milp_lp_problem_with` call.
+    pub fn take_raw_status() -> Option<&'static str> {
+        LAST_RAW_STATUS.with(|cell| cell.take())
     }
 }
